@@ -579,6 +579,51 @@ theorem C15_mp_struct_members (fields : List (List Nat × MV)) (hn : fields.leng
   ⟨members fields, C15_mp_decode_encode _ (structMV_wf fields hn hk hv) rest,
     fun k v h => field_members fields k v hd h, fun k h => field_absent fields k h⟩
 
+/-! ## the typed layer on top: the visitor of `WirePv` on elements classified from the bytes -/
+
+theorem itemOf_payload {p : MV} {j : Nat} (h : payloadKind p = some j) : itemOf p = .payload j := by
+  cases p with
+  | map kvs => simp only [itemOf, h]
+  | _ => simp [payloadKind] at h
+
+theorem payloadKind_range {p : MV} {j : Nat} (h : payloadKind p = some j) : j = 1 ∨ j = 2 ∨ j = 3 := by
+  cases p with
+  | map kvs =>
+    simp only [payloadKind] at h
+    repeat' split at h
+    all_goals first
+      | (cases h; simp)
+      | cases h
+  | _ => simp [payloadKind] at h
+
+/-- **the bytes written for a proof value of kind `k` are read as kind `k`** when the payload has the members of structure
+`k`, and are refused when it has those of another structure — the decision computed from the bytes, all layers composed -/
+theorem C15_pv_typed (k j : Nat) (hk : k = 1 ∨ k = 2 ∨ k = 3) (p : MV) (hw : p.WF) (hp : payloadKind p = some j)
+    (junk : List Nat) :
+    readTyped (enc (tagged k p) ++ junk) = if j = k then some k else none := by
+  unfold readTyped
+  rw [C15_mp_decode_encode (tagged k p) (tagged_wf hk hw) junk]
+  simp only [tagged, List.map_cons, List.map_nil, itemOf_payload hp]
+  have hi : itemOf (.int (k : Int)) = .int k := by
+    simp only [itemOf]
+    rw [if_pos (by omega)]
+  rw [hi]
+  have hj := payloadKind_range hp
+  rcases hk with h | h | h <;> subst h <;> rcases hj with g | g | g <;> subst g <;> decide
+
+/-- and the text written for it, through the header and the base64 layer -/
+theorem C15_pv_typed_text (k : Nat) (hk : k = 1 ∨ k = 2 ∨ k = 3) (p : MV) (hw : p.WF) (hb : p.Bytes)
+    (hp : payloadKind p = some k) :
+    (AnonModel.Base64.envelopeDecode (pvWrite k p)).bind readTyped = some k := by
+  unfold pvWrite
+  have hlt : AllLt 256 (enc (tagged k p)) :=
+    enc_lt _ (tagged_wf hk hw) (by simp only [tagged, MV.Bytes, Bytess]; exact ⟨trivial, hb, trivial⟩)
+  rw [AnonModel.Base64.C15_envelope_decode_encode _ hlt]
+  simp only [Option.bind_some]
+  have := C15_pv_typed k k hk p hw hp []
+  rw [List.append_nil, if_pos rfl] at this
+  exact this
+
 /-! non-vacuity -/
 example : enc (.map [.str [97], .int 300, .str [98], .arr [.nil, .bool true, .int (-33)]])
     = [0x82, 0xa1, 97, 0xcd, 1, 44, 0xa1, 98, 0x93, 0xc0, 0xc3, 0xd0, 223] := by
@@ -586,4 +631,10 @@ example : enc (.map [.str [97], .int 300, .str [98], .arr [.nil, .bool true, .in
 example : (MV.map [.str [97], .int 300, .str [98], .arr [.nil, .bool true, .int (-33)]]).WF := by
   simp [MV.WF, WFs]
 
+end AnonModel.Msgpack
+
+namespace AnonModel.Msgpack
+/-! non-vacuity of the typed hypotheses: a map with the one required member of `PresentationProofValue` -/
+example : payloadKind (.map [.str (key "aggregated"), .nil]) = some 3 := by
+  simp [payloadKind, hasKeys, field, key]
 end AnonModel.Msgpack
